@@ -4,7 +4,7 @@ From Coq Require Import ZArith List Bool Lia.
 Import ListNotations.
 Require Import Base.Py Base.ZList Base.FileModel Gen.Gen_util Gen.Gen_tags Model.Splice Model.Fam_flac
   Proofs.FileLemmas Proofs.Splice_lemmas
-  Proofs.Fam_flac_codec Proofs.Fam_flac_walk Proofs.Fam_flac_save Proofs.Fam_flac_thms.
+  Proofs.Fam_flac_codec Proofs.Fam_flac_walk Proofs.Fam_flac_save Proofs.Fam_flac_thms Proofs.Fam_flac_session.
 Open Scope Z_scope.
 
 Lemma blocks_extent_nonneg bs : 0 <= blocks_extent bs.
@@ -57,19 +57,42 @@ Proof.
     right. assert (E : size = zlen p + 4) by congruence. lia.
 Qed.
 
-Lemma strip_cases g : strip_id3v1 g = g \/ (128 <= zlen g /\ strip_id3v1 g = ztake (zlen g - 128) g).
+(* the ID3v1 trailer is only looked for behind the bytes just written: the audio part loses it, nothing else *)
+Definition strip_audio (a : list Z) : list Z := strip_id3v1 0 a.
+Lemma strip_app X a : strip_id3v1 (zlen X) (X ++ a) = X ++ strip_audio a.
 Proof.
-  unfold strip_id3v1. destruct (128 <=? zlen g) eqn:E; cbn [andb]; [|left; reflexivity].
-  destruct (starts_with TAGMAGIC (zdrop (zlen g - 128) g)); [right; split; [lia|reflexivity]|left; reflexivity].
+  unfold strip_audio, strip_id3v1. rewrite zlen_app. pose proof (zlen_nonneg X). pose proof (zlen_nonneg a).
+  destruct (zlen X <=? zlen X + zlen a - 128) eqn:E.
+  - replace (0 <=? zlen a - 128) with true by lia. cbn [andb].
+    rewrite zdrop_app_r by lia. replace (zlen X + zlen a - 128 - zlen X) with (zlen a - 128) by lia.
+    destruct (starts_with TAGMAGIC (zdrop (zlen a - 128) a)); [|reflexivity].
+    rewrite ztake_app_r by lia. f_equal. f_equal. lia.
+  - replace (0 <=? zlen a - 128) with false by lia. reflexivity.
 Qed.
-(* when the audio part is at least 128 bytes long, only the audio part can lose its ID3v1 trailer *)
-Lemma strip_app X a : 128 <= zlen a -> strip_id3v1 (X ++ a) = X ++ strip_id3v1 a.
+Lemma ztake_cons k (x : Z) l : 1 <= k -> ztake k (x :: l) = x :: ztake (k - 1) l.
+Proof. intros H. unfold ztake. replace (Z.to_nat k) with (S (Z.to_nat (k - 1))) by lia. reflexivity. Qed.
+Lemma zdrop_cons k (x : Z) l : 1 <= k -> zdrop k (x :: l) = zdrop (k - 1) l.
+Proof. intros H. unfold zdrop. replace (Z.to_nat k) with (S (Z.to_nat (k - 1))) by lia. reflexivity. Qed.
+(* audio that starts with a frame sync code still does after the trailer is cut: "TAG" cannot sit on the sync code *)
+Lemma audio_ok_strip a : audio_ok a = true -> audio_ok (strip_audio a) = true.
 Proof.
-  intros Ha. unfold strip_id3v1. rewrite zlen_app. pose proof (zlen_nonneg X).
-  replace (128 <=? zlen X + zlen a) with true by lia. replace (128 <=? zlen a) with true by lia. cbn [andb].
-  rewrite zdrop_app_r by lia. replace (zlen X + zlen a - 128 - zlen X) with (zlen a - 128) by lia.
-  destruct (starts_with TAGMAGIC (zdrop (zlen a - 128) a)); [|reflexivity].
-  rewrite ztake_app_r by lia. f_equal. f_equal. lia.
+  intros Ha. unfold strip_audio, strip_id3v1.
+  destruct ((0 <=? zlen a - 128) && starts_with TAGMAGIC (zdrop (zlen a - 128) a)) eqn:E; [|exact Ha].
+  apply andb_true_iff in E as [E1 E2].
+  destruct a as [|x [|y a2]]; [exact Ha|discriminate|].
+  cbn [audio_ok] in Ha. apply andb_true_iff in Ha as [Hx Hy].
+  rewrite !zlen_cons in *. pose proof (zlen_nonneg a2) as Hn. set (k := 1 + (1 + zlen a2) - 128) in *.
+  destruct (Z.eq_dec k 0) as [K0|K0].
+  { rewrite K0, zdrop_0 in E2. cbn [starts_with TAGMAGIC] in E2. apply andb_true_iff in E2 as [E2 _]. lia. }
+  destruct (Z.eq_dec k 1) as [K1|K1].
+  { rewrite K1 in E2. rewrite zdrop_cons in E2 by lia. replace (1 - 1) with 0 in E2 by lia. rewrite zdrop_0 in E2.
+    cbn [starts_with TAGMAGIC] in E2. apply andb_true_iff in E2 as [E2 _].
+    assert (y = 84) by lia. subst y. cbn in Hy. discriminate. }
+  rewrite ztake_cons by lia. rewrite ztake_cons by lia. cbn [audio_ok]. rewrite Hx, Hy. reflexivity.
+Qed.
+Lemma struct_wf_change p N a p' a' : struct_wf (mkFlac p N a) = true -> audio_ok a' = true -> struct_wf (mkFlac p' N a') = true.
+Proof.
+  unfold struct_wf. cbn [fblocks faudio]. intros H Ha. apply andb_true_iff in H as [H _]. rewrite H, Ha. reflexivity.
 Qed.
 
 Section LayoutD.
@@ -89,7 +112,7 @@ Lemma save_obj_eq_did3 bs0 t o : o_deleteid3 o = true ->
   | Ok bs1 =>
     match writeblocks bs1 (blocks_extent bs + zlen p) (zlen a) (o_cb o) with
     | Raise e => Raise e
-    | Ok data => Ok (strip_id3v1 (MAGIC ++ data ++ a))
+    | Ok data => Ok (strip_id3v1 (4 + zlen data) (MAGIC ++ data ++ a))
     end
   end.
 Proof.
@@ -105,7 +128,7 @@ Proof.
             | None => Ok bs0
             | Some t0 => match vc_write t0 with Ok d => Ok (set_vc bs0 d) | Raise e => Raise e end end) as [bs1|]; [|reflexivity].
   destruct (writeblocks bs1 (blocks_extent bs + zlen p) (zlen a) (o_cb o)) as [data|]; [|reflexivity].
-  f_equal. f_equal.
+  f_equal.
   assert (Hdrop : zdrop (zlen p + 4 + blocks_extent bs) (layout p bs a) = a).
   { unfold layout. rewrite !app_assoc.
     replace (zlen p + 4 + blocks_extent bs) with (zlen ((p ++ MAGIC) ++ render_blocks bs))
@@ -115,12 +138,12 @@ Proof.
   - subst p. change (zlen (@nil Z)) with 0 in *. replace (0 + 4 >? 4) with false by lia.
     replace (0 + 4 + blocks_extent bs) with (4 + blocks_extent bs) in Hdrop by lia.
     replace (0 + 4) with 4 by lia. replace (blocks_extent bs + 0) with (blocks_extent bs) by lia.
-    unfold splice. rewrite Hdrop.
+    f_equal; try lia. unfold splice. rewrite Hdrop.
     unfold layout. cbn [app]. rewrite <- zlen_MAGIC at 1. rewrite ztake_app_exact.
     unfold patch. replace (4 - 4) with 0 by lia. rewrite ztake_0, zlen_MAGIC. cbn [app].
     rewrite <- zlen_MAGIC at 1. replace (0 + zlen MAGIC) with (zlen MAGIC) by lia. rewrite zdrop_app_exact. reflexivity.
   - replace (zlen p + 4 >? 4) with true by lia.
-    unfold splice. replace (4 + (blocks_extent bs + zlen p)) with (zlen p + 4 + blocks_extent bs) by lia. rewrite Hdrop.
+    f_equal; try lia. unfold splice. replace (4 + (blocks_extent bs + zlen p)) with (zlen p + 4 + blocks_extent bs) by lia. rewrite Hdrop.
     unfold patch. replace (4 - 4) with 0 by lia. rewrite ztake_0, zlen_MAGIC. cbn [app]. f_equal.
     assert (H4 : zlen (ztake 4 (layout p bs a)) = 4).
     { rewrite zlen_ztake by lia. rewrite zlen_layout. pose proof (zlen_nonneg a). lia. }
@@ -129,15 +152,13 @@ Proof.
 Qed.
 End LayoutD.
 
-(* C02 with the explicit exception: the ID3v2 prefix is removed, an ID3v1 trailer is cut off the end of the file;
-   the blocks and the audio are otherwise the same *)
+(* C02 / C03 / C01 with the explicit exception deleteid3=True: the ID3v2 prefix is removed, an ID3v1 trailer is cut off the
+   end of the AUDIO (never off the blocks just written); everything else as without the option *)
 Theorem save_deleteid3 f s t o f' : flac_parse f = Ok s -> struct_wf s = true -> o_deleteid3 o = true ->
   flac_save f t o = Ok f' ->
-  exists g s', f' = strip_id3v1 g /\ flac_parse g = Ok s' /\
-    fprefix s' = [] /\ foreign_blocks (fblocks s') = foreign_blocks (fblocks s) /\ faudio s' = faudio s /\
-    hd_error (fblocks s') = hd_error (fblocks s) /\
-    find is_vcb (fblocks s') = Some (mkB 4 (vc_render t) (-1)) /\
-    (128 <= zlen (faudio s) -> flac_parse f' = Ok (mkFlac [] (fblocks s') (strip_id3v1 (faudio s)))).
+  exists s', flac_parse f' = Ok s' /\ struct_wf s' = true /\
+    fprefix s' = [] /\ foreign_blocks (fblocks s') = foreign_blocks (fblocks s) /\ faudio s' = strip_audio (faudio s) /\
+    hd_error (fblocks s') = hd_error (fblocks s) /\ flac_load f' = Ok (Some t).
 Proof.
   intros Hp Hw Hd Hs. destruct (struct_facts f s Hp Hw) as [Hl Hpre Hne Hsm Hok (b0 & r & Hb & Hc0) _ _ _ _ Hopen].
   destruct (small_parts _ Hsm) as (Hc & _ & Ho).
@@ -152,44 +173,51 @@ Proof.
   destruct (writeblocks_inv _ _ _ _ _ Ho1 Ew) as [Hsz Hdata].
   set (n := padlen (o_cb o) (blocks_extent (fblocks s) + zlen (fprefix s)) bs1 (zlen (faudio s))) in *.
   destruct (small_nonpad_snoc bs1 n Hc1 Ho1 Hsz) as [Hall Hnn]; [unfold n, padlen; lia|].
-  inversion Hs; subst f'.
-  exists (MAGIC ++ data ++ faudio s), (mkFlac [] (nonpad bs1 ++ [pad_block n]) (faudio s)).
-  assert (Hparse : flac_parse (MAGIC ++ data ++ faudio s) = Ok (mkFlac [] (nonpad bs1 ++ [pad_block n]) (faudio s))).
-  { rewrite Hdata. apply (parse_build [] _ _ prefix_ok_nil Hnn Hall). }
-  split; [reflexivity|]. split; [exact Hparse|]. cbn [fprefix fblocks faudio].
-  split; [reflexivity|]. split.
-  { unfold bs1. rewrite foreign_app, foreign_nonpad, foreign_set_vc, foreign_pad_block, app_nil_r. reflexivity. }
-  split; [reflexivity|]. split.
-  { unfold bs1. rewrite Hb. rewrite head_saved by exact Hc0. reflexivity. }
+  assert (Hf' : strip_id3v1 (4 + zlen data) (MAGIC ++ data ++ faudio s) = f') by congruence. clear Hs.
+  assert (Hout : f' = (MAGIC ++ data) ++ strip_audio (faudio s)).
+  { rewrite <- Hf'. rewrite app_assoc. replace (4 + zlen data) with (zlen (MAGIC ++ data)) by (rewrite zlen_app, zlen_MAGIC; lia).
+    apply strip_app. }
+  set (N := nonpad bs1 ++ [pad_block n]) in *.
+  assert (Hparse : flac_parse f' = Ok (mkFlac [] N (strip_audio (faudio s)))).
+  { rewrite Hout, <- app_assoc, Hdata. apply (parse_build [] _ _ prefix_ok_nil Hnn Hall). }
+  assert (HforN : foreign_blocks N = foreign_blocks (fblocks s)).
+  { unfold N, bs1. rewrite foreign_app, foreign_nonpad, foreign_set_vc, foreign_pad_block, app_nil_r. reflexivity. }
+  assert (HheadN : N = b0 :: (nonpad (set_vc r (vc_render t)) ++ [pad_block n])).
+  { unfold N, bs1. rewrite Hb. rewrite head_saved by exact Hc0. reflexivity. }
+  exists (mkFlac [] N (strip_audio (faudio s))). split; [exact Hparse|]. cbn [fprefix fblocks faudio].
   split.
-  { unfold bs1. destruct (find_set_vc (fblocks s) (vc_render t) [pad_block n]) as (ov & Hfind).
-    rewrite Hfind. f_equal. f_equal.
-    (* the overflow marker of a block read from a well-formed file is -1 *)
-    assert (G : forall l Y o', Forall ovf_none l -> find is_vcb (nonpad (set_vc l (vc_render t)) ++ Y) = Some (mkB 4 (vc_render t) o') -> o' = -1).
-    { induction l as [|b l IH]; intros Y o' Hlo0 Hfd; cbn [set_vc] in Hfd.
-      - unfold nonpad in Hfd. cbn [filter] in Hfd. rewrite is_pad_mk in Hfd. cbn [negb app find] in Hfd. rewrite is_vcb_mk in Hfd.
-        inversion Hfd. reflexivity.
-      - inversion Hlo0 as [|? ? Hbo Hlo]; subst. destruct (is_vcb b) eqn:E.
-        + unfold nonpad in Hfd. cbn [filter] in Hfd. rewrite is_pad_mk in Hfd. cbn [negb app find] in Hfd. rewrite is_vcb_mk in Hfd.
-          inversion Hfd. exact Hbo.
-        + unfold nonpad in Hfd. cbn [filter] in Hfd. destruct (is_pad b); cbn [negb] in Hfd.
-          * apply (IH Y o' Hlo Hfd).
-          * cbn [app find] in Hfd. rewrite E in Hfd. apply (IH Y o' Hlo Hfd). }
-    apply (G (fblocks s) [pad_block n] ov Ho Hfind). }
-  intros Ha. change (102 :: 76 :: 97 :: 67 :: data ++ faudio s) with ((MAGIC ++ data) ++ faudio s).
-  rewrite strip_app by exact Ha. rewrite <- app_assoc. rewrite Hdata.
-  apply (parse_build [] _ _ prefix_ok_nil Hnn Hall).
+  { apply (struct_wf_change (fprefix s) N (faudio s)).
+    - apply struct_wf_build; [exact Hw| | |exact HforN].
+      + exists b0, (nonpad (set_vc r (vc_render t)) ++ [pad_block n]), r. repeat split; assumption.
+      + unfold N, bs1. apply block_ok_saved; assumption.
+    - apply audio_ok_strip. destruct (struct_facts f s Hp Hw). assumption. }
+  split; [reflexivity|]. split; [exact HforN|]. split; [reflexivity|]. split; [rewrite HheadN, Hb; reflexivity|].
+  unfold flac_load. rewrite Hparse. cbn [fblocks]. unfold N, bs1.
+  destruct (find_set_vc (fblocks s) (vc_render t) [pad_block n]) as (ov & Hfind). rewrite Hfind. cbn [bdata].
+  rewrite <- (app_nil_r (vc_render t)). rewrite vc_parse_render; [reflexivity|apply vc_valid_no_eq; exact Hv|exact Hf].
 Qed.
 
 Theorem final_deleteid3 f t o f' : flac_wf f = true -> o_deleteid3 o = true -> flac_save f t o = Ok f' ->
-  exists s g s', flac_parse f = Ok s /\ f' = strip_id3v1 g /\ flac_parse g = Ok s' /\
-    fprefix s' = [] /\ foreign_blocks (fblocks s') = foreign_blocks (fblocks s) /\ faudio s' = faudio s /\
-    hd_error (fblocks s') = hd_error (fblocks s) /\
-    find is_vcb (fblocks s') = Some (mkB 4 (vc_render t) (-1)) /\
-    (128 <= zlen (faudio s) -> flac_parse f' = Ok (mkFlac [] (fblocks s') (strip_id3v1 (faudio s)))).
+  exists s s', flac_parse f = Ok s /\ flac_parse f' = Ok s' /\
+    fprefix s' = [] /\ foreign_blocks (fblocks s') = foreign_blocks (fblocks s) /\ faudio s' = strip_audio (faudio s) /\
+    hd_error (fblocks s') = hd_error (fblocks s).
 Proof.
   intros Hwf Hd Hs. destruct (wf_parse f Hwf) as (s & Hp & Hw).
-  destruct (save_deleteid3 f s t o f' Hp Hw Hd Hs) as (g & s' & H). exists s, g, s'. split; [exact Hp|exact H].
+  destruct (save_deleteid3 f s t o f' Hp Hw Hd Hs) as (s' & Hp' & _ & A & B & C & D & _). exists s, s'. auto 10.
+Qed.
+Theorem final_deleteid3_wf f t o f' : flac_wf f = true -> o_deleteid3 o = true -> flac_save f t o = Ok f' ->
+  flac_wf f' = true /\ flac_load f' = Ok (Some t).
+Proof.
+  intros Hwf Hd Hs. destruct (wf_parse f Hwf) as (s & Hp & Hw).
+  destruct (save_deleteid3 f s t o f' Hp Hw Hd Hs) as (s' & Hp' & Hw' & _ & _ & _ & _ & Hl).
+  split; [apply (wf_of_parse f' s' Hp' Hw')|exact Hl].
+Qed.
+(* the audio loses at most a 128-byte trailer that starts with "TAG" *)
+Theorem strip_audio_cases a : strip_audio a = a \/
+  (128 <= zlen a /\ starts_with TAGMAGIC (zdrop (zlen a - 128) a) = true /\ strip_audio a = ztake (zlen a - 128) a).
+Proof.
+  unfold strip_audio, strip_id3v1. destruct (0 <=? zlen a - 128) eqn:E; cbn [andb]; [|left; reflexivity].
+  destruct (starts_with TAGMAGIC (zdrop (zlen a - 128) a)); [right; repeat split; lia|left; reflexivity].
 Qed.
 
 Theorem final_splice_prog real part BUF : 1 <= BUF -> forall f s data pos, flac_parse f = Ok s ->
